@@ -42,6 +42,10 @@ def build_program(seed, run, tag=0xC01, overrides=None, prop=PROP):
     """Generate-as-you-go against a live heap (this is also the fault-free sequential dry run)."""
     rng = random.Random(gen.derive_seed(seed, run, tag))
     knobs = gen.default_knobs(rng, prop)
+    if prop == PROP:
+        # `autoalias` configuration: shared (heap) objects may sit in aliasing positions; the permitted side
+        # effect is recorded on the op (alias_fx) and replayed into the reference model
+        knobs["autoalias"] = rng.random() < 0.12
     if overrides:
         knobs.update(overrides)
     env = lang.Env(share_tables=knobs["share_tables"])
@@ -53,9 +57,18 @@ def build_program(seed, run, tag=0xC01, overrides=None, prop=PROP):
         before = alias_snapshot(env, op)
         v = engine.exec_op(env, op)
         env.heap.append(v)
-        if not knobs["autoalias"] and alias_changed(env, before):
-            discard = "autoalias on a shared object"
-            break
+        if alias_changed(env, before):
+            if not knobs["autoalias"]:
+                discard = "autoalias on a shared object"
+                break
+            fx = []
+            for d, a in before:
+                cur = env.heap[d].__dict__.get("alias")
+                if a is None and isinstance(cur, str):
+                    fx.append([d, cur])
+                elif cur is not a and cur != a:
+                    discard = "alias of an already aliased argument changed"  # judged by the final pass
+            op["alias_fx"] = fx
     return g.program, knobs, env, g, discard, rng
 
 
@@ -211,9 +224,14 @@ def one_run(seed, run, force_config=None, overrides=None, max_diag=3):
     L = lib.get()
     program, knobs, env, g, discard, rng = build_program(seed, run, overrides=overrides)
     config = pick_config(rng, force_config)
+    if knobs["autoalias"]:
+        config = "seq"
+    if discard == "alias of an already aliased argument changed":
+        discard = None
     okw = {"ctx_names": sorted(rng.sample(L.CTX_NAMES, 3))}
     st = knobs["share_tables"]
-    res = {"run": run, "config": config, "nops": len(program), "discard": discard, "violations": [],
+    res = {"run": run, "config": config + ("+autoalias" if knobs["autoalias"] else ""), "nops": len(program),
+           "discard": discard, "violations": [], "alias_fx": sum(len(op.get("alias_fx", ())) for op in program),
            "interference": 0, "harness": [], "uncovered": sorted(g.uncovered), "steps": 0, "switches": 0,
            "fired": {}, "overlap": 0, "n_obs": 0, "shape": None, "branching": False, "methods": {},
            "skipped_after_fault": 0, "schedule_hash": None}
@@ -228,7 +246,7 @@ def one_run(seed, run, force_config=None, overrides=None, max_diag=3):
     res["methods"] = dict(meth)
 
     plan = trace = None
-    if config != "seq":
+    if not config.startswith("seq") or config == "seq-fault":
         op_len, msim = sched.measure(program, st)
         plan = plan_sim(program, knobs, rng, config, op_len)
         env, sim, trace = run_sim(program, st, plan, rng=rng)
